@@ -1,4 +1,5 @@
 import WhVerif.Model.C15Solve
+import WhVerif.Lemmas.C15Glue
 /-! `get_optimal_assignments` (branch without affiliations): every assignment is a permutation of `range(ploidy)`. -/
 namespace WhVerif.C15
 
@@ -54,8 +55,8 @@ theorem applyPerm_perm (prevA perm : List Nat) (hnd : perm.Nodup) (hsub : ∀ x 
     (applyPerm prevA perm).Perm prevA := by
   unfold applyPerm
   rw [foldl_zip_set (fun l => prevA.idxOf l)]
-  have hS := List.mergeSort_perm perm (fun a b => decide (a ≤ b))
-  generalize perm.mergeSort (fun a b => decide (a ≤ b)) = S at hS
+  have hS := isort_perm (fun a b => decide (a ≤ b)) perm
+  generalize isort (fun a b => decide (a ≤ b)) perm = S at hS
   have hSnd : S.Nodup := hS.symm.nodup hnd
   have hSsub : ∀ x ∈ S, x ∈ prevA := fun x hx => hsub x (hS.subset hx)
   have hlt : ∀ x ∈ S, prevA.idxOf x < prevA.length := fun x hx => List.idxOf_lt_length_of_mem (hSsub x hx)
